@@ -473,6 +473,20 @@ def gen_periodic(rng):
     return m, setup, sorted(cancels), rng.randint(15, 40)
 
 
+def gen_periodic_model(rng):
+    """C10 family, model-origin variant: one handler (input 3, triggered at the start time by process_event) arms 1-2
+    periodic series on the model itself with relative first deadlines; single origin, so the order is fixed.
+    Returns (model, setup, series, horizon); series = [(input, payload, first deadline, period)]."""
+    series, ops = [], []
+    for k in range(rng.randint(1, 2)):
+        d = rng.randint(1, 9)
+        p = rng.choice([1, 2, 3, 4, 6, 10])
+        ops.append(("sch", ("r", d), k, ("c", 300 + k), None, p))
+        series.append((k, 300 + k, d, p))
+    m = {"cap": rng.choice([1, 2, 16]), "handlers": [[], [], [], ops], "outs": []}
+    return m, [("pe", 0, 3, 1)], series, rng.randint(12, 40)
+
+
 def partition_cmds(rng, horizon, cancels, kind):
     """cuts [0, horizon] into stepping commands; a cancel at time c is issued once now >= c... to be
     partition independent, cancels are issued right after a step_until(c) in every partition."""
